@@ -578,7 +578,8 @@ TRANSLATED = {
             "tr_messages.py -> Gen/GenMessages.v (message_sites: every rendering call of the UI and every UIError in rebench/, clean or not; message_literals)"],
     "C11": ["tr_termination.py -> Gen/GenTermination.v", "tr_facts.py -> Gen/GenFactsPersist.v (persist_locked)",
             "tr_par.py -> Gen/GenPar.v (num_threads, take_items, acquire_locked, acquire_pops, workers_loop, one_worker_per_thread)"],
-    "C12": ["tr_regex.py -> Gen/GenRegex.v"],
+    "C12": ["tr_regex.py -> Gen/GenRegex.v",
+            "tr_adapters.py -> Gen/GenAdapters.v (gen_check_for_error, the error definitions of every adapter, adapter_loops)"],
     "C13": ["tr_termination.py -> Gen/GenTermination.v", "tr_facts.py -> Gen/GenFactsBuild.v (build_locked, setup_only_shape, build_commands_are_executor_and_suite, execute_run_steps)"],
     "C14": ["tr_facts.py -> Gen/GenFactsRewrite.v (replace_atomic)"],
     "C15": ["tr_welford.py -> Gen/GenWelford.v (StatisticProperties.add_sample over an abstract arithmetic signature)"],
